@@ -138,14 +138,14 @@ class C03(Check):
     def cases(self, tier, seed):
         q = tier == "quick"
         n = 0
-        for rep in range(20 if q else 1000):
+        for rep in range(60 if q else 2500):
             for members in SUBSETS:
                 for auto in (False, True):
                     n += 1
                     yield dict(kind="array", seed=seed * 100003 + n, members=members, auto=auto)
-        for i in range(8 if q else 200):
+        for i in range(24 if q else 500):
             yield dict(kind="e2e", seed=seed * 1009 + i, auto=bool(i % 2))
-        for i in range(12 if q else 300):
+        for i in range(40 if q else 800):
             yield dict(kind="hist", seed=seed * 1013 + i)
 
     def setup_worker(self):
